@@ -385,3 +385,9 @@ func HKDFSHA384(ikm, salt, info string, n int) string { return "" }
 //@ lemma auto trusted
 //@ ensures n >= 0 && n <= 255*48 ==> len(HKDFSHA384(ikm, salt, info, n)) == n
 func axHKDFLen(ikm, salt, info string, n int) {}
+
+// The minimal big-endian encoding is the fixed-width one of ceil(bits/8) bytes.
+//
+//@ lemma auto trusted
+//@ ensures v >= 0 && n == (BitLenOf(v)+7)/8 ==> BEFixed(v, n) == BEMin(v)
+func axBEFixedMin(v Mathint, n int) {}
